@@ -241,7 +241,14 @@ def observables_of(st, backend, n, deferred=False):
     if backend == "gaussian":
         o["is_coherent"] = [bool(st.is_coherent(m)) for m in range(n)]
         o["is_squeezed"] = [bool(st.is_squeezed(m)) for m in range(n)]
-        o["squeezing"] = np.asarray(st.squeezing(), dtype=complex)
+        # (r, phi) as the complex squeezing parameter r e^{i phi}: the phase of an unsqueezed mode is not defined
+        sq = []
+        for m_, (r_, ph_) in enumerate(st.squeezing()):
+            _mu, c_ = st.reduced_gaussian([m_])
+            c_ = np.asarray(c_) / (st.hbar / 2)
+            # (for a nearly isotropic covariance the phase is the angle of a number below 1e-6: only r is compared)
+            sq.append(r_ * np.exp(1j * ph_) if np.hypot(c_[0, 1], (c_[1, 1] - c_[0, 0]) / 2) > 1e-6 else r_)
+        o["squeezing"] = np.array(sq, dtype=complex)
         o["displacement"] = np.asarray(st.displacement(), dtype=complex)
         o["reduced_dm"] = np.asarray(st.reduced_dm([0], cutoff=5))
     if backend in ("gaussian", "fock"):
@@ -342,12 +349,18 @@ def run_case(case, rep, env):
     rep.monitor("observables:" + backend)
     ratio = h2 / h1
     tol = 2e-6  # (post-selected homodyne uses a finite-squeezing model, eps = 2e-4)
+    # strongly squeezed states amplify the rounding differences between the two runs (conditioning on a post-selected
+    # outcome divides by small variances): the budget grows with the largest covariance entry of the state (hbar = 2 units)
+    amp = 1.0
+    if o2.get("cov") is not None:
+        amp = max(1.0, float(np.max(np.abs(o2["cov"]))) / (h2 / 2.0))
+
     def cmp(name, x, y, scale):
         if x is None or y is None:
             return
         x, y = np.asarray(x, dtype=complex), np.asarray(y, dtype=complex)
         d = float(np.max(np.abs(x * scale - y))) if x.size else 0.0
-        if d > tol * (1 + float(np.max(np.abs(y))) if y.size else 1):
+        if d > tol * amp * (1 + float(np.max(np.abs(y))) if y.size else 1):
             V(backend + ".state." + name, "hbar-scaling", "%s at hbar=%s and hbar=%s does not scale by %.4f: max deviation %.3e" % (
                 name, h1, h2, scale, d))
             raise StopIteration
